@@ -140,3 +140,130 @@ def fields_read_of_self(fn):
             if p:
                 visit(p)
     return out
+
+
+def term_reads(t):
+    out = []
+    k = t["k"]
+    if k == "call":
+        for a in t["args"]:
+            p = op_place(a)
+            if p is not None:
+                out.append(p)
+        if "indirect" in t:
+            p = op_place(t["indirect"])
+            if p is not None:
+                out.append(p)
+        if t["dest"]["p"]:
+            out.append(t["dest"])
+    elif k == "switch":
+        p = op_place(t["op"])
+        if p is not None:
+            out.append(p)
+    elif k == "assert":
+        for o in [t["cond"]] + t["ops"]:
+            p = op_place(o)
+            if p is not None:
+                out.append(p)
+    elif k == "drop":
+        out.append(t["place"])
+    return out
+
+
+def liveness(fn):
+    """classic backward liveness over whole locals; returns live_in[bb] (sets of local indices)"""
+    n = len(fn.blocks)
+    use = [set() for _ in range(n)]
+    dfn = [set() for _ in range(n)]
+    for bb, b in enumerate(fn.blocks):
+        if b.get("cleanup"):
+            continue
+        u, d = use[bb], dfn[bb]
+        for s in b["stmts"]:
+            for p in places_read(s["rv"]):
+                if p["l"] not in d:
+                    u.add(p["l"])
+            if s["lhs"]["p"]:
+                if s["lhs"]["l"] not in d:
+                    u.add(s["lhs"]["l"])
+            else:
+                d.add(s["lhs"]["l"])
+        t = b["term"]
+        for p in term_reads(t):
+            if p["l"] not in d:
+                u.add(p["l"])
+        if t["k"] == "call" and not t["dest"]["p"]:
+            d.add(t["dest"]["l"])
+        if t["k"] == "return" and 0 not in d:
+            u.add(0)
+    live_in = [set() for _ in range(n)]
+    changed = True
+    while changed:
+        changed = False
+        for bb in range(n - 1, -1, -1):
+            out = set()
+            for s_ in fn.succ[bb]:
+                out |= live_in[s_]
+            new = use[bb] | (out - dfn[bb])
+            if new != live_in[bb]:
+                live_in[bb] = new
+                changed = True
+    return live_in
+
+
+def field_writes(facts, cg, path, depth=3, _seen=None):
+    """fields written through a `self`/&mut receiver by `path` and (to `depth`) its local callees:
+    set of 'Type.field' strings (Type = last path segment of the receiver's pointee type)"""
+    _seen = _seen if _seen is not None else set()
+    if path in _seen or depth < 0:
+        return set()
+    _seen.add(path)
+    f = facts.fns.get(path)
+    if f is None:
+        return set()
+    out = set()
+
+    def visit(pl):
+        if len(pl["p"]) >= 2 and pl["p"][0] == "*" and isinstance(pl["p"][1], dict) and "f" in pl["p"][1]:
+            ty = f.locals[pl["l"]]
+            if ty.startswith("&mut "):
+                base = ty[5:].rsplit("::", 1)[-1]
+                out.add("%s.%s" % (base, pl["p"][1]["n"]))
+                # nested struct field: Vm.stack.sp written directly
+                if len(pl["p"]) >= 3 and isinstance(pl["p"][2], dict) and "f" in pl["p"][2]:
+                    out.add("%s.%s.%s" % (base, pl["p"][1]["n"], pl["p"][2]["n"]))
+    for bb, j, s in f.stmts():
+        if s["lhs"]["p"]:
+            visit(s["lhs"])
+            # `*r = v` where r: &mut usize came from an accessor is attributed by the accessor's name below
+    for bb, t in f.calls():
+        if t["dest"]["p"]:
+            visit(t["dest"])
+        c = callee(t)
+        if c in facts.fns:
+            out |= field_writes(facts, cg, c, depth - 1, _seen)
+            # a `&mut T` returned by an accessor and then assigned through
+            g = facts.fns[c]
+            if g.locals and g.locals[0].startswith("&mut ") and not t["dest"]["p"]:
+                dest = t["dest"]["l"]
+                for b2, j2, s2 in f.stmts():
+                    if s2["lhs"]["l"] == dest and s2["lhs"]["p"] and s2["lhs"]["p"][0] == "*":
+                        for fld in fields_read_of_self(g) | _fields_borrowed_of_self(g):
+                            rty = g.locals[1] if len(g.locals) > 1 else ""
+                            base = rty.replace("&mut ", "").replace("&", "").rsplit("::", 1)[-1]
+                            out.add("%s.%s" % (base, fld))
+    return out
+
+
+def _fields_borrowed_of_self(fn):
+    out = set()
+    for bb, j, s in fn.stmts():
+        rv = s["rv"]
+        if rv["k"] == "ref":
+            p = rv["place"]
+            if p["l"] == 1:
+                for e in p["p"]:
+                    if isinstance(e, dict) and "f" in e:
+                        out.add(e["n"])
+                        break
+    return out
